@@ -27,4 +27,9 @@ R2 == { <<R(F("cp", <<X>>), <<"vars", "S", "E">>, Lit("none", <<0, 0>>, <<"vars"
           R(F("out", <<X>>), <<"none">>, Lit2(op, w, <<"none">>))>> : op \in {"dm", "bm", "dp", "bp"}, w \in {<<0, 0>>, <<0, 2>>, <<1, 3>>} }
       \cup { <<R(F("cp", <<X>>), <<"now">>, Lit("bm", <<0, 1>>, <<"none">>)),
                R(F("pt", <<X, Var("T")>>), <<"none">>, Lit2("none", <<0, 0>>, <<"var1", "T">>))>> }
+\* C05 for temporal programs: several, possibly overlapping and nested, intervals of one atom on a 0..9 timeline
+\* (a long early interval that out-lasts later short ones, equal starts, equal ends, touching intervals)
+IVO == {<<0, 9>>, <<0, 5>>, <<0, 1>>, <<1, 2>>, <<1, 8>>, <<2, 3>>, <<3, 4>>, <<4, 4>>, <<5, 7>>, <<6, 9>>, <<8, 9>>, <<NEG, 3>>, <<2, POS>>}
+TFO == {<<A1, iv>> : iv \in IVO} \cup {<<A2, iv>> : iv \in {<<0, 9>>, <<1, 2>>, <<3, 4>>, <<5, 6>>}}
+NWO == 0..9
 =============================================================================
